@@ -210,10 +210,16 @@ func (ev *SpecEnv) eval(e ast.Expr) (Val, types.Type) {
 		case SliceV:
 			if s.Region == nil {
 				// reading a nil slice in a spec: an arbitrary value (such reads are guarded by the clause)
-				es, _ := ev.ex.elemSort(s.Elem)
-				return Scalar{ev.ex.fresh("nilread", es)}, s.Elem
+				if es, scalar := ev.ex.elemSort(s.Elem); scalar {
+					return Scalar{ev.ex.fresh("nilread", es)}, s.Elem
+				}
+				save := ev.ex.Inputs
+				ev.ex.resultMode = true
+				nv := ev.ex.symVal(ev.st, fmt.Sprintf("nilread_%d", ev.ex.nfreshNext()), s.Elem, 1)
+				ev.ex.resultMode = false
+				ev.ex.Inputs = save
+				return nv, s.Elem
 			}
-			mem := ev.heapMem(s.Region)
 			var et types.Type
 			if t != nil {
 				if st, ok := t.Underlying().(*types.Slice); ok {
@@ -223,6 +229,10 @@ func (ev *SpecEnv) eval(e ast.Expr) (Val, types.Type) {
 			if et == nil {
 				et = s.Elem
 			}
+			if len(s.Region.Sub) > 0 {
+				return ev.ex.regionLoad(ev.st, s.Region, ev.ex.idxAdd(s.Off, idx), nil), et
+			}
+			mem := ev.heapMem(s.Region)
 			return ev.ex.elemVal(s.Elem, Select(mem, ev.ex.idxAdd(s.Off, idx))), et
 		case ArrayV:
 			return ev.ex.elemVal(s.Typ.Elem(), Select(ev.heapMem(s.Region), idx)), s.Typ.Elem()
